@@ -23,8 +23,8 @@ def parse_ret(s):
 
 class C20:
     pid = 'C20'
-    targets = ['theories/IndexedCache.vo', 'theories/IndexedCache_Facts.vo']
-    header = "From EQL Require Import Base IndexedCache.\nOpen Scope string_scope."
+    targets = ['theories/IndexedCache.vo', 'theories/IndexedCache_Facts.vo', 'theories/IndexedMemo_Facts.vo']
+    header = "From EQL Require Import Base IndexedCache IndexedMemo_Facts.\nOpen Scope string_scope."
     impl_script = 'impl_cache.py'
     rule = ("random histories over 1-4 keys and a 3-value alphabet: inserts under full / partial / overwriting bindings, "
             "coverage checks, retrievals, clears (plus a malformed stream: empty bindings and lookups, non-key ids, compared with "
@@ -37,6 +37,8 @@ class C20:
 
     def budget(self, tier):
         return {'quick': 1000, 'thorough': 15000, 'search': 1}.get(tier, 1000)
+
+    mg_share = 0           # share of retrievals that are reduced to their most general rows (C05MG below)
 
     def __init__(self):
         self._exh = None
@@ -54,8 +56,14 @@ class C20:
                 # distinct outputs per position so that overwrites are visible
                 for i, o in enumerate(ops):
                     o[2] = 7 + i
+                same = [[o[0], o[1], 7] for o in ops]
                 ops += [['ret', l] for l in lookups] + [['chk', l] for l in lookups[1:]]
                 hist.append(dict(keys=[1, 2], ops=ops))
+                if not self.mg_share:
+                    continue
+                # the same insertions with ONE output (a truth flag shared by rows that contain one another), every lookup reduced
+                # to its most general rows
+                hist.append(dict(keys=[1, 2], ops=same + [['mg', l] for l in lookups]))
         return hist
 
     def gen(self, rng, i, tier):
@@ -100,7 +108,8 @@ class C20:
                 ops.append(['chk', a])
             elif r < 0.92:
                 a = asg(0.5) if rng.random() < 0.8 or malformed else []
-                ops.append(['ret', a])
+                # 'mg': the retrieval reduced to its most general rows (what a cached operator replays for a covered lookup)
+                ops.append(['mg' if rng.random() < self.mg_share else 'ret', a])
             else:
                 last = stored[-1] if stored else None
                 ops.append(['clr'])
@@ -123,6 +132,7 @@ class C20:
         nk = rng.randint(2, 4)
         keys = sorted(rng.sample(range(1, 7), nk))
         ops = []
+        flags = self.mg_share > 0 and rng.random() < 0.7            # outputs are truth flags: rows that contain one another often carry the same one
         for _ in range(rng.randint(1, 3)):
             spec_keys = rng.sample(keys, rng.randint(2, nk))
             specific = {k: rng.randint(0, 2) for k in spec_keys}
@@ -132,7 +142,7 @@ class C20:
             for b in pair:
                 a = list(b.items())
                 rng.shuffle(a)
-                ops.append(['ins', a, rng.randint(0, 9)])
+                ops.append(['ins', a, rng.randint(0, 1) if flags else rng.randint(0, 9)])
             for _ in range(rng.randint(1, 3)):
                 look = {k: rng.randint(0, 2) for k in keys}
                 look.update(general)
@@ -142,7 +152,7 @@ class C20:
                     del look[rng.choice([k for k in keys if k not in general] or keys)]
                 a = list(look.items())
                 rng.shuffle(a)
-                ops.append([rng.choice(['chk', 'chk', 'ret']), a])
+                ops.append([rng.choice(['chk', 'chk', 'ret'] + ['mg', 'mg', 'mg'] * (self.mg_share > 0)), a])
         return dict(keys=keys, ops=ops)
 
     def gen_protocol(self, rng):
@@ -183,8 +193,13 @@ class C20:
                 ops.append(f"OChk {coq_asg(op[1])}")
             elif op[0] == 'ret':
                 ops.append(f"ORet {coq_asg(op[1])}")
+            elif op[0] == 'mg':
+                ops.append(f"ORet {coq_asg(op[1])}")
             else:
                 ops.append("OClr")
+        if any(op[0] == 'mg' for op in case['ops']):
+            flagged = [f"({o}, {'true' if op[0] == 'mg' else 'false'})" for o, op in zip(ops, case['ops'])]
+            return f"Eval vm_compute in (run_case_mg {n} [{';'.join(map(str, case['keys']))}] [{'; '.join(flagged)}])."
         return f"Eval vm_compute in (run_case {n} [{';'.join(map(str, case['keys']))}] [{'; '.join(ops)}])."
 
     def split(self, s):
@@ -231,6 +246,7 @@ class C20:
         d = {'ops': len(case['ops']), 'keys_%d' % len(case['keys']): 1}
         for op in case['ops']:
             d['op_' + op[0]] = d.get('op_' + op[0], 0) + 1
+        d['most_general_selections'] = sum(1 for op in case['ops'] if op[0] == 'mg')
         d['retrievals_nonempty'] = sum(1 for o in io['obs'] if o.startswith('[') and o != '[]')
         d['checks_true'] = sum(1 for o in io['obs'] if o == 'T')
         d['retrievals_on_mixed_level'] = sum(1 for m in io['mixed'] if m)
@@ -253,3 +269,70 @@ class C20:
                 for j in range(len(o[1])):
                     o2 = [o[0], o[1][:j] + o[1][j + 1:]] + o[2:]
                     yield dict(keys=case['keys'], ops=ops[:i] + [o2] + ops[i + 1:])
+
+
+class C05MG(C20):
+    """C05, the cached call site below the evaluator: histories over cache_data.IndexedCache in which retrievals are reduced by
+    BinaryOperator._most_general_ - the model's [most_general (ic_retrieve ...)] (IndexedMemo_Facts / IndexedMemo_Den: what a covered
+    lookup is answered with).  Only part of C05's check (check.py mixes it into the query family)."""
+    pid = 'C05'
+    mg_share = 0.6
+    rule = ("HISTORIES OVER THE INDEX with retrievals reduced by BinaryOperator._most_general_ (what a covered lookup is answered "
+            "with): random histories, bindings that contain one another under equal / different truth flags, and the PROTOCOL of a "
+            "cached else-if whose rows leave keys open (check; covered -> most general of the retrieval; otherwise store every row)")
+    explanation = ("IndexedMemo_Facts.most_general over IndexedCache.ic_retrieve is the model of the replay; it is compared with "
+                   "BinaryOperator._most_general_(cache.retrieve(lookup)) as exact sequences")
+
+    def gen(self, rng, i, tier):
+        r = rng.random()
+        if r < 0.4:
+            return self.gen_open_protocol(rng)
+        if r < 0.75:
+            return self.gen_subsumption(rng)
+        return C20.gen(self, rng, i, 'quick')
+
+    def gen_open_protocol(self, rng):
+        """an else-if `A(x) or else B(x, z)` (optionally a third key w that only lookups bind) as a cached operator: under a lookup
+        it yields, for every x the lookup allows, the row {x} + lookup when A(x) holds (z stays OPEN unless the lookup binds it),
+        otherwise one row per z with the flag of B(x, z).  For each lookup of the history: coverage check; covered -> the most general
+        rows of the retrieval; otherwise every row is stored."""
+        nk = rng.randint(2, 3)
+        keys = sorted(rng.sample(range(1, 7), nk))
+        kx, kz = keys[0], keys[1]
+        if rng.random() < 0.5:
+            kx, kz = kz, kx
+        vals = [0, 1, 2]
+        A = {x: rng.random() < 0.5 for x in vals}
+        B = {(x, z): rng.random() < 0.5 for x in vals for z in vals}
+        with_false = rng.random() < 0.6
+        ops, stored = [], []
+        for _ in range(rng.randint(3, 8)):
+            L = {k: rng.choice(vals) for k in keys if rng.random() < 0.55}
+            if not L:
+                L = {rng.choice(keys): rng.choice(vals)}
+            look = list(L.items())
+            rng.shuffle(look)
+            ops.append(['chk', look])
+            if any(all(L.get(k) == v for k, v in e.items()) for e in stored):
+                ops.append(['mg', look])
+                continue
+            for x in ([L[kx]] if kx in L else vals):
+                if A[x]:
+                    rows = [({**L, kx: x}, 0)]
+                else:
+                    rows = [({**L, kx: x, kz: z}, 0 if B[(x, z)] else 1) for z in ([L[kz]] if kz in L else vals)]
+                for r, flag in rows:
+                    if flag and not with_false:
+                        continue
+                    a = list(r.items())
+                    ops.append(['ins', a, flag])
+                    stored.append(r)
+        return dict(keys=keys, ops=ops, open_protocol=True)
+
+    def stats(self, case, io):
+        d = C20.stats(self, case, io)
+        d = {'index_' + k: v for k, v in d.items()}
+        if case.get('open_protocol'):
+            d['index_open_row_protocol_histories'] = 1
+            d['index_covered_lookups_replayed'] = sum(1 for op in case['ops'] if op[0] == 'mg')
+        return d
